@@ -3,6 +3,7 @@ R-ICC-REJECT — the consistency checks of the ICC stream decoder exist as compa
 from .. import validation
 from ..engine import Ctx
 from ..facts import callee
+from ..mirutil import strip_generics
 
 READ = "jxl_color::icc::decode::read_icc"
 DEC = "jxl_color::icc::decode::decode_icc"
@@ -777,6 +778,136 @@ def rule_interp_eval(ctx):
         ctx.bad(rid, "decode_icc|script:" + name, "ICC stream `%s`: %s (%d of %d scripts differ)" % (name, what, len(bad), rows), fn=f)
 
 
+def rule_ctx_history(ctx):
+    """the two-byte context history of the ICC byte stream starts once per profile"""
+    from ..facts import op_const, op_const_int, op_local, op_place
+    from ..mirutil import Defs
+    rid = "R-ICC-HISTORY"
+    ctx.rule(rid, "every byte of the encoded ICC stream is read with a context chosen from the two bytes before it (get_icc_ctx(idx, b1, "
+                  "b2)); that history starts at (0, 0) once, at the beginning of the stream.  The rule follows the b1 / b2 arguments of "
+                  "every get_icc_ctx call back to their definitions - through copies, tuple / struct fields and `&mut` parameters into "
+                  "the callers - and requires each place where the history is started afresh (a constant 0, a zero tuple, "
+                  "Default::default()) to sit in code that runs once per read_icc: in read_icc itself outside any loop, or in a "
+                  "function with a single call site that does.  A helper that restarts the history and is called per chunk "
+                  "(seed C18n) decodes the bytes after each seam with the wrong context")
+    col = ctx.prog.crate("jxl_color")
+    fam = [g for g in col.fn_list if g.path.startswith("jxl_color::icc::decode::") and g.kind != "Promoted"]
+    top = col.fn("jxl_color::icc::decode::read_icc")
+    sites = [(g, b, t) for g in fam for b, t in g.calls() if callee(t) and callee(t)["fn"].endswith("get_icc_ctx") and len(t[2]) == 3]
+    if top is None or not sites:
+        ctx.anchor_missing(rid, "read_icc and the get_icc_ctx(idx, b1, b2) call")
+        return
+    dcache = {}
+
+    def defs_of(g):
+        if g.path not in dcache:
+            dcache[g.path] = Defs(g)
+        return dcache[g.path]
+
+    def in_loop(g, b):
+        return any(b in g.reachable(x) for x in g.succs(b) if not g.is_cleanup(x))
+
+    def call_sites(g):
+        out = []
+        for h in fam:
+            for b, t in h.calls():
+                c = callee(t)
+                if c and (ctx.prog.fn(c.get("res", c["fn"])) is g or ctx.prog.fn(c["fn"]) is g):
+                    out.append((h, b, t))
+        return out
+
+    def once(g, depth=0):
+        """does g run at most once per read_icc (and outside loops)?"""
+        if g is top:
+            return True
+        cs = call_sites(g)
+        return depth < 4 and len(cs) == 1 and not in_loop(cs[0][0], cs[0][1]) and once(cs[0][0], depth + 1)
+
+    fresh, problems = [], []
+
+    def trace(g, l, seen, depth=0):
+        """collect the fresh starts of the value held in local l of g"""
+        if (g.path, l) in seen or depth > 6:
+            return
+        seen.add((g.path, l))
+        ds = [d for d in defs_of(g).of(l) if not g.is_cleanup(d[0])]
+        if l <= g.argc and l >= 1:
+            # a parameter: by value or by reference - follow it into every caller
+            for h, b, t in call_sites(g):
+                a = t[2][l - 1] if l - 1 < len(t[2]) else None
+                al = op_local(a) if a is not None else None
+                if al is None:
+                    if a is not None and op_const_int(a) == 0:
+                        fresh.append((h, b))
+                    continue
+                trace(h, al, seen, depth + 1)
+            return
+        for d in ds:
+            if d[2] == "call":
+                c = callee(d[3])
+                nm = c["fn"] if c else ""
+                if nm.startswith("core::default::Default::default") or nm.endswith("::default") or nm.endswith("::new"):
+                    fresh.append((g, d[0]))
+                elif nm.startswith("core::mem::replace") or nm.startswith("core::mem::take"):
+                    continue
+                else:
+                    for a in d[3][2]:
+                        if op_local(a) is not None:
+                            trace(g, op_local(a), seen, depth + 1)
+                continue
+            if d[2] != "assign":
+                continue            # partial writes are updates of a history that already exists
+            rv = d[3][2]
+            if rv[0] == "use":
+                if op_const(rv[1]) is not None:
+                    if op_const_int(rv[1]) == 0:
+                        fresh.append((g, d[0]))
+                    continue
+                pl = op_place(rv[1])
+                if pl:
+                    trace(g, pl[0], seen, depth + 1)
+            elif rv[0] == "ref":
+                trace(g, rv[2][0], seen, depth + 1)
+            elif rv[0] == "agg":
+                ops = rv[2]
+                if ops and all(op_const(o) is not None for o in ops):
+                    fresh.append((g, d[0]))
+                else:
+                    for o in ops:
+                        if op_local(o) is not None:
+                            trace(g, op_local(o), seen, depth + 1)
+            elif rv[0] == "cast":
+                pl = op_place(rv[2])
+                if pl:
+                    trace(g, pl[0], seen, depth + 1)
+    for g, b, t in sites:
+        ctx.seen(g)
+        for a in t[2][1:]:
+            l = op_local(a)
+            if l is None:
+                if op_const_int(a) is None:
+                    problems.append("an argument of get_icc_ctx in %s that is neither a local nor a constant" % g.path.split("::")[-1])
+                continue
+            trace(g, l, set())
+    ctx.count(rid + ".ctx-calls", len(sites))
+    ctx.floor(rid + ".ctx-calls", 1)
+    if problems or not fresh:
+        ctx.anchor_missing(rid, "the start of the two-byte history behind get_icc_ctx's arguments (%s)" % (problems[0] if problems else "no constant start found"))
+        return
+    badk = set()
+    for g, b in fresh:
+        if in_loop(g, b) or not once(g):
+            k = g.path.split("::")[-1]
+            if k not in badk:
+                badk.add(k)
+                ctx.bad(rid, "history-restarted:" + strip_generics(g.path), "the context history of the ICC byte stream is started afresh in %s, %s: the "
+                        "bytes after every restart but the first are decoded with the context of (0, 0) instead of the two bytes before them"
+                        % (k, "inside a loop" if in_loop(g, b) else "which read_icc reaches through more than one call or from a loop"), fn=g)
+    if not badk:
+        ctx.ok(rid, "history-starts-once", "%d get_icc_ctx call(s); the history starts at %d place(s), each run once per profile" % (len(sites), len(set((g.path, b) for g, b in fresh))),
+               nontrivial=True, fn=top)
+
+
 def rule_shuffle_eval(ctx):
     """shuffle2 / shuffle4, evaluated from MIR on byte strings of every small length, are the format's transpositions"""
     from .. import absint
@@ -875,6 +1006,7 @@ def main(pid, tier, repo=None):
     rule_headerpred(ctx)
     rule_shuffle_eval(ctx)
     rule_interp_eval(ctx)
+    rule_ctx_history(ctx)
     # no unwrap/expect/index panic on the error path: decode_icc returns Result and converts slice errors
     ctx.not_decided("byte equality of the decoded profile with the embedded one for EVERY encoding (value-level round trip): the interpreter is "
                     "compared with the format on 53 scripted streams and the shuffles on 20 lengths, not on all streams; the entropy-coded "
